@@ -191,7 +191,7 @@ fn check_pool(prop: Prop, tier: Tier, seed: u64) -> i32 {
         tier,
         seed,
         level: "exploration",
-        rule: "one run = (pool history of 1..k broadcasts with n_j aux threads, api, panicking index subset, spurious-park plan) x one seeded schedule (random walk / PCT / starve / run-to-block); non-trivial = >= 2 simulated threads and >= 1 decision with >= 2 enabled threads, or >= 1 fired fault; distinct = unseen (scenario shape, fired fault kinds, per-object operation-order signature, outcome class)",
+        rule: "one run = (pool history of 1..k broadcasts with n_j aux threads, api, panicking index subset, who calls: the main thread, a helper thread per broadcast, or 2-3 caller threads at the same time; spurious-park plan) x one seeded schedule (random walk / PCT / starve / run-to-block); non-trivial = >= 2 simulated threads and >= 1 decision with >= 2 enabled threads, or >= 1 fired fault; distinct = unseen (scenario shape, fired fault kinds, per-object operation-order signature, outcome class)",
         assumptions: vec![
             "std sync primitives are modelled by dsim (documented semantics only); interleavings are sequentially consistent, ordering bugs are caught by the vector-clock happens-before audit, not by weak-memory execution".into(),
             "preemption only at shim operations and probes".into(),
